@@ -305,6 +305,20 @@ where
         self.as_mut().project().transport
     }
 
+    /// Number of requests currently tracked as in flight (read-only verification accessor).
+    #[cfg(feature = "verif")]
+    #[doc(hidden)]
+    pub fn verif_in_flight_len(&self) -> usize {
+        self.in_flight_requests.len()
+    }
+
+    /// Number of pending deadline timers (read-only verification accessor).
+    #[cfg(feature = "verif")]
+    #[doc(hidden)]
+    pub fn verif_deadline_timers(&self) -> usize {
+        self.in_flight_requests.verif_deadline_timers()
+    }
+
     fn poll_ready<'a>(
         self: &'a mut Pin<&mut Self>,
         cx: &mut Context<'_>,
